@@ -202,6 +202,7 @@ SUBS = {
         ('version_09', 'hostile', _line(lambda b, r: b.method + b' ' + b.target + b' HTTP/0.9')),
         ('version_12', 'hostile', _line(lambda b, r: b.method + b' ' + b.target + b' HTTP/1.2')),
         ('version_12_badheader', 'mal', lambda b, r: b.build(version=b'HTTP/1.2', rawheaders=b'Host: verif.example\r\nX-Foo\r\n')),
+        ('version_2_badheader', 'mal', lambda b, r: b.build(version=b'HTTP/2.0', rawheaders=b'Host: verif.example\r\nX-Foo\r\n')),
         ('version_1_380_badheader', 'mal', lambda b, r: b.build(version=b'HTTP/1.380', rawheaders=b'Host: verif.example\r\nX-Foo\r\n')),
         ('version_big', 'mal', _line(lambda b, r: b.method + b' ' + b.target + b' HTTP/' + b'9' * 40 + b'.1')),
         ('version_trailing', 'mal', _line(lambda b, r: b.method + b' ' + b.target + b' ' + b.version + b' extra')),
